@@ -60,9 +60,17 @@ def nonArray : GTy → GTy
   | .array t => nonArray t
   | t => t
 
+/-- `while let TypeLayer::Array(inner, _) = layer(ty) { ty = remove_modifier(inner); }` (since fix bdddd35):
+    below every `Array` layer, and below one `Modifier` after each of them -/
+def whileArray : GTy → GTy
+  | .array (.modifier t) => whileArray t
+  | .array t => whileArray t
+  | t => t
+
 def peelStep : PeelOp → GTy → GTy
   | .removeModifier, t => removeModifier t
   | .nonArray, t => nonArray t
+  | .whileArrayRemoveModifier, t => whileArray t
 
 /-- the `let ty = …;` statements at the head of the global loop (`Gen.LayoutTables.globalPeelOps`) -/
 def peel : List PeelOp → GTy → GTy
